@@ -124,7 +124,8 @@ fn replay_case(case: &Value, c: &C, mode: &str, flip_limits: bool) -> Bad {
     let p = p.unwrap();
     let zero_disp = mv["xe"] == mv["x0"];
     let neg = mk_profile(mv, c, true, flip_limits);
-    if mode != "c06" {
+    let with_negation = mode == "c07" || mode == "all";
+    if with_negation {
         if let Err(m) = &neg {
             return Some((if zero_disp { "negation:zero_displacement" } else { "negation" }.into(), "the negated request panicked".into(), json!("profile"), json!(m)));
         }
@@ -174,7 +175,7 @@ fn replay_case(case: &Value, c: &C, mode: &str, flip_limits: bool) -> Bad {
                 }
             }
             // negating all positions and velocities negates every output exactly
-            if let Ok(np) = &neg {
+            if let (true, Ok(np)) = (with_negation, &neg) {
                 let on = match observe(np, t) {
                     Ok(o) => o,
                     Err(m) => return Some(("negation".into(), format!("an accessor of the negated profile panicked at {qd}"), q.clone(), json!(m))),
